@@ -34,6 +34,9 @@ Definition E_DECODE : N := 6.    (* "decode message ..." from the arrival hook *
 Definition E_CID : N := 7.       (* writer: "invalid chunk stream id" *)
 Definition E_FUEL : N := 99.     (* model only: loop fuel exhausted *)
 
+(* List.rev is quadratic; the executable model reverses with an accumulator *)
+Definition frev {A} (l : list A) : list A := rev_append l [].
+
 Record msg := mkmsg { m_cid : N; m_ts : N; m_type : N; m_sid : N; m_payload : bytes }.
 
 (* ---------- transport: a list of segments (one per transport read) ---------- *)
@@ -216,12 +219,12 @@ Definition read_payload (inchunk cid : N) (st : cstate) (i : inp) : res (option 
   let h := c_hdr st in
   let '(got, gl) := match c_part st with None => ([], 0) | Some g => g end in
   let mk p := mkmsg cid (h_ts h) (h_type h) (h_sid h) p in
-  if h_len h =? 0 then Ok (Some (mk (concat (rev got))), set_part st None, i)
+  if h_len h =? 0 then Ok (Some (mk (concat (frev got))), set_part st None, i)
   else if h_len h <? gl then Panic 4
   else
     let n := N.min (h_len h - gl) inchunk in
     let* (d, i1) := stake i n in
-    if gl + n =? h_len h then Ok (Some (mk (concat (rev (d :: got)))), set_part st None, i1)
+    if gl + n =? h_len h then Ok (Some (mk (concat (frev (d :: got)))), set_part st None, i1)
     else Ok (None, set_part st (Some (d :: got, gl + n)), i1).
 
 (* onMessageArrivated: types 1, 4, 5 are decoded (DecodeMessage + UnmarshalBinary);
@@ -281,12 +284,12 @@ Fixpoint read_n (fuel : nat) (n : nat) (s : rstate) (i : inp) : res (list msg * 
 (* the session loop of a peer: messages until the first error (reversed accumulator) *)
 Fixpoint read_all (fuel : nat) (s : rstate) (i : inp) (acc : list msg) : list msg * N :=
   match fuel with
-  | O => (rev acc, E_FUEL)
+  | O => (frev acc, E_FUEL)
   | S f =>
       match read_message fuel s i with
       | Ok (m, s1, i1) => read_all f s1 i1 (m :: acc)
-      | Err e => (rev acc, e)
-      | Panic p => (rev acc, 1000 + p)
+      | Err e => (frev acc, e)
+      | Panic p => (frev acc, 1000 + p)
       end
   end.
 
@@ -503,11 +506,11 @@ Definition next_size (pend all : list N) : N * list N :=
   end.
 Fixpoint cut_go (b : bytes) (k : N) (pend all : list N) (cur : bytes) : inp :=
   match b with
-  | [] => [rev cur]
+  | [] => [frev cur]
   | x :: t =>
       if k =? 0 then
         let '(k', pend') := next_size pend all in
-        rev cur :: cut_go t (N.pred k') pend' all [x]
+        frev cur :: cut_go t (N.pred k') pend' all [x]
       else cut_go t (N.pred k) pend all (x :: cur)
   end.
 Definition cut (script : list N) (b : bytes) : inp :=
@@ -573,7 +576,7 @@ Definition sx_step (s : sx) : option step :=
   match s with
   | SL [c; f; t; a] =>
       match sxN c, sxN f, sxN t, sxN a with
-      | Some c, Some f, Some t, Some a => Some (mkstep c f t a)
+      | Some c, Some f, Some t, Some a => Some (mkstep (u32 c) f (t mod 4) (u32 a))
       | _, _, _, _ => None
       end
   | _ => None
